@@ -127,7 +127,8 @@ func C19(p *ir.Program, r *report.R) {
 			cells++
 			nk, nv := false, false
 			for _, call := range deepCalls(fn, 1, map[*ssa.Function]bool{}) {
-				if ir.CalleeName(call) == "db.nonNilBytes" {
+				// nonNilBytes, or cp (which always returns a non-nil copy: make([]byte, len))
+				if cn := ir.CalleeName(call); cn == "db.nonNilBytes" || cn == "db.cp" {
 					if Arg(call, 0) == "key" {
 						nk = true
 					}
@@ -507,6 +508,90 @@ func C19(p *ir.Program, r *report.R) {
 			}
 		}
 		r.Check("K5", "iterator-source/sites", "-", n >= 6, fmt.Sprintf("%d backend iterator creations inspected (confirmed by hand: 3 + 3)", n))
+	}
+
+	// ---- a batch owns what it queues ------------------------------------------------------------------------
+	// Between Set/Delete and Write the caller may reuse its key (and value) buffer: every batch either
+	// copies the bytes itself or hands them to a backend call that does (goleveldb Batch.Put/Delete,
+	// snappy.Encode into a fresh buffer). The caller's slice — or an alias of it (nonNilBytes returns its
+	// argument) — is never stored, appended or passed on otherwise.
+	{
+		copying := []string{"db.cp", "db.cpWithoutNil", "db.dbIndex", "leveldb.Batch.Put", "leveldb.Batch.Delete", "snappy.Encode"}
+		n := 0
+		for _, bt := range []string{"memBatch", "goLevelDBBatch", "boltBatch", "badgerBatch", "prefixBatch"} {
+			for _, m := range []string{"Set", "Delete"} {
+				fn := p.TryFunc("libs/db", bt+"."+m)
+				if fn == nil {
+					continue
+				}
+				n++
+				var bad []string
+				seen := map[ssa.Value]bool{}
+				var follow func(v ssa.Value, what string)
+				follow = func(v ssa.Value, what string) {
+					if seen[v] || v.Referrers() == nil {
+						return
+					}
+					seen[v] = true
+					for _, u := range *v.Referrers() {
+						switch x := u.(type) {
+						case *ssa.Call:
+							name := ir.CalleeName(x)
+							if bi, isB := x.Call.Value.(*ssa.Builtin); isB {
+								switch bi.Name() {
+								case "len", "cap", "copy":
+									continue
+								case "append":
+									if len(x.Call.Args) == 2 && x.Call.Args[1] == v && x.Call.Args[0] != v {
+										// append(dst, v...) copies v's bytes; fine when dst is not the caller's slice
+										continue
+									}
+								}
+								bad = append(bad, fmt.Sprintf("%s: %s used by %s", p.InstrPos(x), what, bi.Name()))
+								continue
+							}
+							if strings.HasSuffix(name, "db.nonNilBytes") {
+								follow(x, what+" (through nonNilBytes)")
+								continue
+							}
+							okc := false
+							for _, c := range copying {
+								if strings.HasSuffix(name, c) {
+									okc = true
+								}
+							}
+							// a prefixed batch forwards to the batch it wraps (checked on its own)
+							if strings.HasSuffix(name, "db.Batch.Set") || strings.HasSuffix(name, "db.Batch.Delete") {
+								okc = true
+							}
+							if !okc {
+								bad = append(bad, fmt.Sprintf("%s: %s passed to %s", p.InstrPos(x), what, name))
+							}
+						case *ssa.Store:
+							if x.Val == v {
+								bad = append(bad, fmt.Sprintf("%s: %s stored at %s", p.InstrPos(x), what, short(ir.Render(x.Addr), 50)))
+							}
+						case *ssa.Slice:
+							follow(x, what+" (resliced)")
+						case *ssa.Phi:
+							follow(x, what)
+						case *ssa.MakeInterface, *ssa.MapUpdate:
+							bad = append(bad, fmt.Sprintf("%s: %s retained", p.InstrPos(u.(ssa.Instruction)), what))
+						}
+					}
+				}
+				for i, q := range fn.Params {
+					if i == 0 {
+						continue
+					}
+					if _, isSlice := q.Type().Underlying().(*types.Slice); isSlice {
+						follow(q, "the caller's "+q.Name())
+					}
+				}
+				r.Check("K4", "batch-owns-its-bytes/db.(*"+bt+")."+m, p.Pos(fn.Pos()), len(bad) == 0, fmt.Sprintf("the caller's slices are copied (or handed to a copying backend call), never kept: %v", bad))
+			}
+		}
+		r.Check("K4", "batch-owns-its-bytes/sites", "-", n >= 8, fmt.Sprintf("%d batch Set/Delete methods inspected", n))
 	}
 
 	// ---- keys built from an object's own slice are built on a copy ----------------------------------
